@@ -1,4 +1,7 @@
 import NaijaVerif.Lemmas.BridgeSafe
+import NaijaVerif.Lemmas.BridgeReach
+import NaijaVerif.Lemmas.BridgeReachPlan
+import NaijaVerif.Lemmas.BridgeReachNum
 import NaijaVerif.Lemmas.BridgeSource
 import NaijaVerif.Model.Pipeline
 import NaijaVerif.Props.C06Eval
@@ -36,11 +39,25 @@ evaluator's invariant `MR` holds along every run) and a second walk over the che
   `parse::<f64>` accepts such lexemes) and `c06_pipeline` (the shipped `Pipeline.runSource`).
 * The plan: `C06Eval.c06_full` quantifies over ARBITRARY optimisation plans and is false as stated —
   a plan that removes a function the program calls makes the call panic at `fnById`
-  (`c06_full_is_false_for_arbitrary_plans`).  The theorems here assume `PlanKeepsCalls`:
-  outside the bodies of removed functions and outside removed statements (which the evaluator skips)
-  no call is bound to a removed function (a decidable check
-  of the annotated program against the plan; the plan may remove any statement).  That the plan the
-  analyses compute has this property is C03's subject.
+  (`c06_full_is_false_for_arbitrary_plans`).  The theorems here assume `PlanReach`: there is a set `K`
+  of function ids that the plan keeps and that is closed under the calls of the code that can run —
+  the top-level code and the bodies of the definitions in `K`, outside removed statements (which the
+  evaluator skips) and outside nested definitions (`Bridge.KeptReach`, `Lemmas/BridgeReach.lean`;
+  decidable for a given finite `K`, and for the canonical `K` computed from the annotations:
+  `planReaches`).  The bodies of definitions OUTSIDE `K` are exempt — a definition in dead code is
+  hoisted whatever the plan says about its statement, and what only it calls may be removed.
+  `PlanKeepsCalls` (`keptBlock`: every kept function calls kept functions only) is the special case
+  `K` = all kept functions; it is FALSE for the plan of the real analyses on such programs
+  (`keptBlock_too_strong`), `PlanReach` is not:
+* `analysis_plan_reach` (`Lemmas/BridgeReachPlan.lean`): the plan of the analysis MODEL satisfies it
+  with `K := bodyReachable` (diagnostics.rs `compute_function_reachability`) under decidable
+  conditions on the annotated program and its facts only (no plan): every statement is numbered
+  (PROVED of the resolver model's output: `accepted_numbered`), the facts of a statement name its
+  function and cover the callees of its own expressions (`ownOkB`, a hypothesis of C03's T3,
+  evaluated by the `plan` driver on every case), and the fixpoint iteration of `bodyReachable` has
+  converged (`brClosed`, likewise) — the last two are `FactsCoverCalls`.  `c06_accepted_analysis` and
+  `c06_pipeline_reach` are `c06_accepted` / `c06_pipeline` with `FactsCoverCalls` of the front end's
+  result in place of the hypothesis on the plan.
 * Lookup: the theorems are for the lookup of the current code (`dynamic`) and for `lexical` (equal runs
   by C04); the whole-stack lookup of the code before the fix of D-04 is not covered.
 -/
@@ -61,6 +78,33 @@ instance (cfg : RunCfg) (p : Block) : Decidable (PlanKeepsCalls cfg p) := inferI
 /-- Without a plan (and with any plan that removes no function) the condition holds. -/
 theorem planKeepsCalls_none (cfg : RunCfg) (h : cfg.plan = none) (p : Block) : PlanKeepsCalls cfg p := by
   unfold PlanKeepsCalls; rw [h]; exact kept_none.2 p
+
+/-- **The hypothesis on the plan**: some set `K` of function ids is kept by the plan and closed under
+the calls of the code that can run (`Bridge.KeptReach`: the top-level code and the bodies of the
+definitions in `K`, outside the statements the plan removes and outside nested definitions; the
+bodies of definitions outside `K` are exempt). -/
+def PlanReach (cfg : RunCfg) (p : Block) : Prop := ∃ K : Nat → Bool, KeptReach K cfg.plan p
+
+/-- For a finite `K` the condition is a decidable check of the annotated program against the plan. -/
+theorem planReach_of_keptReach {cfg : RunCfg} {p : Block} (K : List Nat) (h : keptReach K cfg.plan p = true) :
+    PlanReach cfg p := ⟨_, keptReach_spec h⟩
+
+/-- … in particular with the canonical `K` computed from the call annotations (`Bridge.reachK`; what
+the driver evaluates on the real plan and the real resolver's output of every accepted program). -/
+theorem planReach_of_planReaches {cfg : RunCfg} {p : Block} (h : planReaches cfg.plan p = true) : PlanReach cfg p :=
+  planReach_of_keptReach _ h
+
+/-- `PlanKeepsCalls` is the special case `K` = every function the plan keeps. -/
+theorem PlanKeepsCalls.reach {cfg : RunCfg} {p : Block} (h : PlanKeepsCalls cfg p) : PlanReach cfg p :=
+  ⟨_, keptReach_of_keptBlock h⟩
+
+theorem planReach_none (cfg : RunCfg) (h : cfg.plan = none) (p : Block) : PlanReach cfg p :=
+  (planKeepsCalls_none cfg h p).reach
+
+/-- The extended plan of `Lemmas/BridgeReach.lean` is one the evaluator side accepts for the plan of
+the run: the same statements are skipped, more functions are removed. -/
+theorem planExt_planK (n : Nat) (K : Nat → Bool) (plan : Option Plan) : PlanExt (some (planK n K plan)) plan :=
+  ⟨planK_stmt n K plan, planK_fn_of_pruned n K plan⟩
 
 /-- The lookup of the current code, or the lexical reference lookup. -/
 def CurrentLookup (cfg : RunCfg) : Prop := cfg.lookup = .dynamic ∨ cfg.lookup = .lexical
@@ -137,18 +181,19 @@ def ScannerParserSite (s : PanicSite) : Prop := s = .numLit ∨ s = .assignIndex
 configuration without function pruning, and fuel: the current code can panic at most at `numLit`
 (a number lexeme that does not parse) or `assignIndexEmpty` (an index assignment without index). -/
 theorem accepted_panics_only_at_scanner_parser_sites (cfg : RunCfg) (hp : cfg.panics = false)
-    (hl : CurrentLookup cfg) (q : Block) (hacc : Accepted q) (hk : PlanKeepsCalls cfg (Resolve.resolve q).root) (fuel : Nat)
+    (hl : CurrentLookup cfg) (q : Block) (hacc : Accepted q) (hk : PlanReach cfg (Resolve.resolve q).root) (fuel : Nat)
     (site : PanicSite) (out : List (Value N))
     (h : (run cfg fuel (Resolve.resolve q).root : Outcome N) = .panic site out) : ScannerParserSite site := by
-  have hok := ok_plan_block ⟨arityTable (Resolve.resolve q), fun _ => true, false, none⟩ cfg.plan _ false
-    (resolve_ok true (fun _ => true) false q ((src_lax []).2 q) (accepted_rdiags hacc)) hk
+  obtain ⟨K, hK, hr⟩ := hk
+  have hok := ok_reach_block ⟨arityTable (Resolve.resolve q), fun _ => true, false, none⟩ K cfg.plan hK _ false
+    (resolve_ok true (fun _ => true) false q ((src_lax []).2 q) (accepted_rdiags hacc)) hr
   refine run_safe (A := ScannerParserSite)
-    ⟨hp, rfl, Or.inl (Or.inl rfl), Or.inr strTotal, Or.inl (Or.inr rfl)⟩ hl _ (accepted_wellScoped hacc) hok fuel
-    site out h
+    ⟨hp, planExt_planK _ K cfg.plan, Or.inl (Or.inl rfl), Or.inr strTotal, Or.inl (Or.inr rfl)⟩ hl _
+    (accepted_wellScoped hacc) hok fuel site out h
 
 section sites
 variable (cfg : RunCfg) (hp : cfg.panics = false) (hl : CurrentLookup cfg)
-  (q : Block) (hacc : Accepted q) (hk : PlanKeepsCalls cfg (Resolve.resolve q).root) (fuel : Nat)
+  (q : Block) (hacc : Accepted q) (hk : PlanReach cfg (Resolve.resolve q).root) (fuel : Nat)
   (out : List (Value N))
 include hp hl hk hacc
 
@@ -219,46 +264,54 @@ def NumLitsParse (N : Type) [NumOps N] (numOk : Bytes → Bool) : Prop :=
 have an index, an accepted program never panics — every number type with `NumLitsParse`, every host
 configuration of the current code without function pruning, every fuel. -/
 theorem c06_accepted (numOk : Bytes → Bool) (hnum : NumLitsParse N numOk) (cfg : RunCfg)
-    (hp : cfg.panics = false) (hl : CurrentLookup cfg) (q : Block) (hacc : Accepted q) (hk : PlanKeepsCalls cfg (Resolve.resolve q).root)
+    (hp : cfg.panics = false) (hl : CurrentLookup cfg) (q : Block) (hacc : Accepted q) (hk : PlanReach cfg (Resolve.resolve q).root)
     (hsrc : SourceOK numOk q) (fuel : Nat) :
     (run cfg fuel (Resolve.resolve q).root : Outcome N).isPanic = false := by
-  have hok := ok_plan_block ⟨arityTable (Resolve.resolve q), numOk, true, none⟩ cfg.plan _ false
-    (resolve_ok true numOk true q hsrc (accepted_rdiags hacc)) hk
+  obtain ⟨K, hK, hreach⟩ := hk
+  have hok := ok_reach_block ⟨arityTable (Resolve.resolve q), numOk, true, none⟩ K cfg.plan hK _ false
+    (resolve_ok true numOk true q hsrc (accepted_rdiags hacc)) hreach
   cases hr : (run cfg fuel (Resolve.resolve q).root : Outcome N) with
   | panic site out =>
     exact (run_safe (A := fun _ => False)
-      (C := SCfg.withPlan ⟨arityTable (Resolve.resolve q), numOk, true, none⟩ cfg.plan)
-      ⟨hp, rfl, Or.inr hnum, Or.inr strTotal, Or.inr rfl⟩ hl _ (accepted_wellScoped hacc) hok fuel site out hr).elim
+      (C := SCfg.withPlan ⟨arityTable (Resolve.resolve q), numOk, true, none⟩
+        (some (planK (arityTable (Resolve.resolve q)).length K cfg.plan)))
+      ⟨hp, planExt_planK _ K cfg.plan, Or.inr hnum, Or.inr strTotal, Or.inr rfl⟩ hl _ (accepted_wellScoped hacc) hok
+      fuel site out hr).elim
   | _ => rfl
 
 /-- `numLit` alone: needs only that the lexemes parse. -/
 theorem numLit_unreachable (numOk : Bytes → Bool) (hnum : NumLitsParse N numOk) (cfg : RunCfg)
-    (hp : cfg.panics = false) (hl : CurrentLookup cfg) (q : Block) (hacc : Accepted q) (hk : PlanKeepsCalls cfg (Resolve.resolve q).root)
+    (hp : cfg.panics = false) (hl : CurrentLookup cfg) (q : Block) (hacc : Accepted q) (hk : PlanReach cfg (Resolve.resolve q).root)
     (hsrc : srcBlock ⟨[], numOk, false, none⟩ q = true) (fuel : Nat) (out : List (Value N)) :
     (run cfg fuel (Resolve.resolve q).root : Outcome N) ≠ .panic .numLit out := by
   intro h
-  have hok := ok_plan_block ⟨arityTable (Resolve.resolve q), numOk, false, none⟩ cfg.plan _ false
-    (resolve_ok true numOk false q hsrc (accepted_rdiags hacc)) hk
+  obtain ⟨K, hK, hreach⟩ := hk
+  have hok := ok_reach_block ⟨arityTable (Resolve.resolve q), numOk, false, none⟩ K cfg.plan hK _ false
+    (resolve_ok true numOk false q hsrc (accepted_rdiags hacc)) hreach
   have := run_safe (A := fun s => s = .assignIndexEmpty)
-    (C := SCfg.withPlan ⟨arityTable (Resolve.resolve q), numOk, false, none⟩ cfg.plan)
-    ⟨hp, rfl, Or.inr hnum, Or.inr strTotal, Or.inl rfl⟩ hl _ (accepted_wellScoped hacc) hok fuel _ out h
+    (C := SCfg.withPlan ⟨arityTable (Resolve.resolve q), numOk, false, none⟩
+      (some (planK (arityTable (Resolve.resolve q)).length K cfg.plan)))
+    ⟨hp, planExt_planK _ K cfg.plan, Or.inr hnum, Or.inr strTotal, Or.inl rfl⟩ hl _ (accepted_wellScoped hacc) hok
+    fuel _ out h
   cases this
 
 /-- `assignIndexEmpty` alone: needs only that index assignments have an index. -/
 theorem assignIndexEmpty_unreachable (cfg : RunCfg) (hp : cfg.panics = false) (hl : CurrentLookup cfg)
-    (q : Block) (hacc : Accepted q) (hk : PlanKeepsCalls cfg (Resolve.resolve q).root) (hsrc : srcBlock ⟨[], fun _ => true, true, none⟩ q = true)
+    (q : Block) (hacc : Accepted q) (hk : PlanReach cfg (Resolve.resolve q).root) (hsrc : srcBlock ⟨[], fun _ => true, true, none⟩ q = true)
     (fuel : Nat) (out : List (Value N)) :
     (run cfg fuel (Resolve.resolve q).root : Outcome N) ≠ .panic .assignIndexEmpty out := by
   intro h
-  have hok := ok_plan_block ⟨arityTable (Resolve.resolve q), fun _ => true, true, none⟩ cfg.plan _ false
-    (resolve_ok true (fun _ => true) true q hsrc (accepted_rdiags hacc)) hk
+  obtain ⟨K, hK, hreach⟩ := hk
+  have hok := ok_reach_block ⟨arityTable (Resolve.resolve q), fun _ => true, true, none⟩ K cfg.plan hK _ false
+    (resolve_ok true (fun _ => true) true q hsrc (accepted_rdiags hacc)) hreach
   have := run_safe (A := fun s => s = .numLit)
-    ⟨hp, rfl, Or.inl rfl, Or.inr strTotal, Or.inr rfl⟩ hl _ (accepted_wellScoped hacc) hok fuel _ out h
+    ⟨hp, planExt_planK _ K cfg.plan, Or.inl rfl, Or.inr strTotal, Or.inr rfl⟩ hl _ (accepted_wellScoped hacc) hok
+    fuel _ out h
   cases this
 
 /-- The form of `C06Eval.ResidualUnreachable`, with the assumptions it needs made explicit. -/
 theorem residual_unreachable (numOk : Bytes → Bool) (hnum : NumLitsParse N numOk) (cfg : RunCfg)
-    (hp : cfg.panics = false) (hl : CurrentLookup cfg) (q : Block) (hacc : Accepted q) (hk : PlanKeepsCalls cfg (Resolve.resolve q).root)
+    (hp : cfg.panics = false) (hl : CurrentLookup cfg) (q : Block) (hacc : Accepted q) (hk : PlanReach cfg (Resolve.resolve q).root)
     (hsrc : SourceOK numOk q) (fuel : Nat) (site : PanicSite) (out : List (Value N))
     (h : (run cfg fuel (Resolve.resolve q).root : Outcome N) = .panic site out) : site.fixed = true := by
   have := c06_accepted numOk hnum cfg hp hl q hacc hk hsrc fuel
@@ -277,7 +330,7 @@ theorem source_ok (src : Bytes) : SourceOK isNumLexeme (parsed src) := frontEnd_
 /-- `assignIndexEmpty` is unreachable for every accepted program that comes out of the parser — no
 assumption left. -/
 theorem assignIndexEmpty_unreachable_parsed (cfg : RunCfg) (hp : cfg.panics = false) (hl : CurrentLookup cfg)
-    (src : Bytes) (hacc : Accepted (parsed src)) (hk : PlanKeepsCalls cfg (Resolve.resolve (parsed src)).root)
+    (src : Bytes) (hacc : Accepted (parsed src)) (hk : PlanReach cfg (Resolve.resolve (parsed src)).root)
     (fuel : Nat) (out : List (Value N)) :
     (run cfg fuel (Resolve.resolve (parsed src)).root : Outcome N) ≠ .panic .assignIndexEmpty out :=
   assignIndexEmpty_unreachable cfg hp hl _ hacc hk
@@ -289,7 +342,7 @@ run never panics — for every number type whose `ofLit` (`str::parse::<f64>`) a
 that keeps what kept code calls. -/
 theorem c06_source (hnum : NumLitsParse N isNumLexeme) (cfg : RunCfg) (hp : cfg.panics = false)
     (hl : CurrentLookup cfg) (src : Bytes) (hacc : Accepted (parsed src))
-    (hk : PlanKeepsCalls cfg (Resolve.resolve (parsed src)).root) (fuel : Nat) :
+    (hk : PlanReach cfg (Resolve.resolve (parsed src)).root) (fuel : Nat) :
     (run cfg fuel (Resolve.resolve (parsed src)).root : Outcome N).isPanic = false :=
   c06_accepted isNumLexeme hnum cfg hp hl _ hacc hk (source_ok src) fuel
 
@@ -314,11 +367,11 @@ theorem frontEnd_ok {caps : Limits.Caps} {src : Bytes} {a : Pipeline.Accepted}
 
 /-- **C06 for the shipped pipeline** (`Pipeline.runSource`: lex → parse → resolve → analyses → run
 with the analyses' plan): a text that gets as far as running never panics, provided the plan the
-analyses compute keeps what kept code calls (`keptBlock`, C03's subject — stated as a hypothesis on
-the front end's result). -/
+analyses compute keeps a call-closed set of functions (`KeptReach`, stated as a hypothesis on the
+front end's result; `c06_pipeline_reach` derives it from conditions on program and facts). -/
 theorem c06_pipeline (hnum : NumLitsParse N isNumLexeme) (caps : Limits.Caps) (cfg : RunCfg)
     (hp : cfg.panics = false) (hl : CurrentLookup cfg) (fuel : Nat) (src : Bytes)
-    (hplan : ∀ a, Pipeline.frontEnd caps src = .ok a → keptBlock a.plan a.root = true)
+    (hplan : ∀ a, Pipeline.frontEnd caps src = .ok a → ∃ K : Nat → Bool, KeptReach K a.plan a.root)
     (w : List Diag) (o : Outcome N) (h : Pipeline.runSource caps cfg fuel src = .ran w o) : o.isPanic = false := by
   unfold Pipeline.runSource at h
   split at h
@@ -330,6 +383,87 @@ theorem c06_pipeline (hnum : NumLitsParse N isNumLexeme) (caps : Limits.Caps) (c
     have hk := hplan a ha
     rw [hroot] at hk ⊢
     exact c06_source hnum { cfg with plan := a.plan } hp hl src hacc hk fuel
+
+/-- The former statement (hypothesis `keptBlock`: EVERY kept function calls kept functions only) is a
+corollary. -/
+theorem c06_pipeline_kept (hnum : NumLitsParse N isNumLexeme) (caps : Limits.Caps) (cfg : RunCfg)
+    (hp : cfg.panics = false) (hl : CurrentLookup cfg) (fuel : Nat) (src : Bytes)
+    (hplan : ∀ a, Pipeline.frontEnd caps src = .ok a → keptBlock a.plan a.root = true)
+    (w : List Diag) (o : Outcome N) (h : Pipeline.runSource caps cfg fuel src = .ran w o) : o.isPanic = false :=
+  c06_pipeline hnum caps cfg hp hl fuel src (fun a ha => ⟨_, keptReach_of_keptBlock (hplan a ha)⟩) w o h
+
+/-- The plan `Pipeline.frontEnd` hands to the runtime is the plan of the analysis model for the
+annotated program and its facts — or none, when a limit tripped. -/
+theorem frontEnd_plan {caps : Limits.Caps} {src : Bytes} {a : Pipeline.Accepted}
+    (h : Pipeline.frontEnd caps src = .ok a) : a.plan = none ∨ a.plan = modelPlan a.root a.facts := by
+  unfold Pipeline.frontEnd at h
+  simp only at h
+  split at h
+  · cases h
+  · split at h
+    · cases h
+    · split at h
+      · cases h; exact Or.inr rfl
+      · cases h
+        simp only [Limits.emitAnalysis]
+        split
+        · exact Or.inl rfl
+        · exact Or.inr rfl
+
+/-- The conditions on the resolver's FACTS — no plan — under which the plan of the analyses is proved
+to keep what reachable code calls (`Lemmas/BridgeReachPlan.lean`): per statement, the facts name its
+function and cover the callees of its own expressions (`C03.ownOkB`, hypothesis of C03's T3); the
+call-graph reachability `bodyReachable` has converged (`Ctx.brClosed`).  Decidable; both are evaluated
+by the `plan` driver on the real resolver's output of every case of C03's tie (`malformed own` /
+`malformed brclosed` otherwise). -/
+def FactsCoverCalls (root : Block) (facts : Facts) : Prop :=
+  C03.ownOkB root facts = true ∧ (Analysis.mkCtx root facts).brClosed = true
+
+instance (root : Block) (facts : Facts) : Decidable (FactsCoverCalls root facts) := by
+  unfold FactsCoverCalls; exact inferInstance
+
+/-- C03's hypothesis `structOkB` (of `c03_full_holds`; plan-free, evaluated by the `plan` driver on
+every case) contains both conditions. -/
+theorem factsCoverCalls_of_struct {root : Block} {facts : Facts} (h : C03.structOkB root facts = true) :
+    FactsCoverCalls root facts := own_of_struct root facts h
+
+/-- An accepted program comes out of the resolver model numbered (every statement a `StmtId`, every
+definition a `FunctionId`): the third condition of `analysis_plan_reach`, proved
+(`Lemmas/BridgeReachNum.lean`). -/
+theorem accepted_numbered {q : Block} (h : Accepted q) : numBlock (Resolve.resolve q).root = true :=
+  resolve_num true q (accepted_rdiags h)
+
+/-- **The plan of the analysis model satisfies the hypothesis on the plan**, with
+`K := bodyReachable`, for every numbered program whose facts cover its calls. -/
+theorem analysis_plan_planReach (cfg : RunCfg) (root : Block) (facts : Facts) (hnum : numBlock root = true)
+    (h : FactsCoverCalls root facts) : PlanReach { cfg with plan := modelPlan root facts } root :=
+  ⟨_, analysis_plan_reach root facts hnum h.1 h.2⟩
+
+/-- **C06 for accepted programs run with the plan of the analysis model**: no hypothesis on the plan —
+only that the resolver's facts cover the calls of the program. -/
+theorem c06_accepted_analysis (numOk : Bytes → Bool) (hnum : NumLitsParse N numOk) (cfg : RunCfg)
+    (hp : cfg.panics = false) (hl : CurrentLookup cfg) (q : Block) (hacc : Accepted q)
+    (hfacts : FactsCoverCalls (Resolve.resolve q).root (Resolve.resolve q).facts)
+    (hsrc : SourceOK numOk q) (fuel : Nat) :
+    (run { cfg with plan := modelPlan (Resolve.resolve q).root (Resolve.resolve q).facts } fuel
+      (Resolve.resolve q).root : Outcome N).isPanic = false :=
+  c06_accepted numOk hnum { cfg with plan := modelPlan (Resolve.resolve q).root (Resolve.resolve q).facts } hp hl q hacc
+    (analysis_plan_planReach cfg _ _ (accepted_numbered hacc) hfacts) hsrc fuel
+
+/-- **C06 for the shipped pipeline, no hypothesis on the plan**: a text that gets as far as running
+never panics, provided the facts the front end produced cover the calls of the program
+(`FactsCoverCalls`: conditions on the resolver's output only, no plan). -/
+theorem c06_pipeline_reach (hnum : NumLitsParse N isNumLexeme) (caps : Limits.Caps) (cfg : RunCfg)
+    (hp : cfg.panics = false) (hl : CurrentLookup cfg) (fuel : Nat) (src : Bytes)
+    (hfacts : ∀ a, Pipeline.frontEnd caps src = .ok a → FactsCoverCalls a.root a.facts)
+    (w : List Diag) (o : Outcome N) (h : Pipeline.runSource caps cfg fuel src = .ran w o) : o.isPanic = false := by
+  refine c06_pipeline hnum caps cfg hp hl fuel src (fun a ha => ?_) w o h
+  obtain ⟨h1, h2⟩ := hfacts a ha
+  obtain ⟨hroot, hacc⟩ := frontEnd_ok ha
+  have hn : numBlock a.root = true := by rw [hroot]; exact accepted_numbered hacc
+  rcases frontEnd_plan ha with e | e
+  · rw [e]; exact ⟨_, keptReach_of_keptBlock (kept_none.2 _)⟩
+  · rw [e]; exact ⟨_, analysis_plan_reach _ _ hn h1 h2⟩
 
 /-! ### Why the two assumptions and the one on the plan are needed -/
 
@@ -362,7 +496,8 @@ def callsF : Block :=
 
 /-- **`C06Eval.c06_full` is false as stated**: it quantifies over arbitrary optimisation plans, and a
 plan that removes a function the program calls makes the call panic at `fnById`.  (The plan the code
-computes for a program is the subject of C03; here it is an assumption, `PlanKeepsCalls`.) -/
+computes for a program is the subject of C03 and of `analysis_plan_reach`; here it is an assumption,
+`PlanReach`.) -/
 theorem c06_full_is_false_for_arbitrary_plans : ¬ C06Eval.c06_full := by
   intro h
   have h1 := h Int { Toy.cfg with plan := some ⟨[], [1]⟩ } rfl callsF (by decide +kernel) 10
@@ -408,6 +543,8 @@ example : Accepted sample ∧ SourceOK toyNumOk sample ∧ CurrentLookup Toy.cfg
 
 example : PlanKeepsCalls Toy.cfg (Resolve.resolve sample).root := planKeepsCalls_none _ rfl _
 
+example : PlanReach Toy.cfg (Resolve.resolve sample).root := planReach_none _ rfl _
+
 /-- … and with a plan that really removes something: `callsF` with an unused function `g` that calls
 another unused function `h`; the plan removes both (ids 2 and 3) and the first statement.  The call
 of `h` inside the removed `g` is exempt. -/
@@ -431,7 +568,7 @@ example : Toy.summary (run Toy.cfg 40 (Resolve.resolve sample).root) = ([b!"[4, 
 /-- An instance of `c06_accepted`. -/
 example (fuel : Nat) : (run Toy.cfg fuel (Resolve.resolve sample).root : Outcome Int).isPanic = false :=
   c06_accepted toyNumOk toy_numLitsParse Toy.cfg rfl (Or.inl rfl) sample (by decide +kernel)
-    (planKeepsCalls_none _ rfl _) (by decide +kernel) fuel
+    (planReach_none _ rfl _) (by decide +kernel) fuel
 
 /-- A dead call bound to a removed function inside a KEPT function:
 ```
@@ -461,7 +598,56 @@ example : Accepted (parsed deadCallText) ∧
 example (fuel : Nat) : (run { Toy.cfg with plan := some ⟨[4], [1]⟩ } fuel
     (Resolve.resolve (parsed deadCallText)).root : Outcome Int).isPanic = false :=
   c06_accepted toyNumOk toy_numLitsParse { Toy.cfg with plan := some ⟨[4], [1]⟩ } rfl (Or.inl rfl)
-    (parsed deadCallText) (by decide +kernel) (by decide +kernel) (by decide +kernel) fuel
+    (parsed deadCallText) (by decide +kernel)
+    (PlanKeepsCalls.reach (cfg := { Toy.cfg with plan := some ⟨[4], [1]⟩ }) (by decide +kernel)) (by decide +kernel) fuel
+
+/-- **`keptBlock` is too strong for the plan of the analyses** (found by the evaluation of `keptBlock`
+on the real plans: false on 45 of 10 373 accepted programs of the run streams):
+```
+do step(n) start
+  do leaf(m) start return m end
+  return n
+  do mk() start return leaf(1) end
+end
+shout(step(2))
+```
+(functions step = 1, leaf = 2, mk = 3).  The definition of `mk` comes after the `return`: its
+definition statement is unreachable, so the analysis neither reports `mk` unused nor removes it, and
+`hoist` registers it whatever the plan says about the statement.  Nobody calls `mk`; `leaf` is called
+by `mk` only, so it is unused and removed.  `keptBlock` fails (the kept `mk` calls the removed
+`leaf`); `KeptReach` holds with `K = {0, 1}` = `bodyReachable` = the canonical `reachK`: the body of
+`mk` ∉ K is exempt, and nothing of it can run. -/
+def hoistedDeadDefText : Bytes :=
+  b!"do step(n) start\n do leaf(m) start return m end\n return n\n do mk() start return leaf(1) end\nend\nshout(step(2))"
+
+theorem keptBlock_too_strong :
+    let r := Resolve.resolve (parsed hoistedDeadDefText)
+    Accepted (parsed hoistedDeadDefText) ∧
+    (Analysis.planModel r.root r.facts).fns = [2] ∧
+    keptBlock (modelPlan r.root r.facts) r.root = false ∧
+    (Analysis.mkCtx r.root r.facts).bodyReachable = [1, 0] ∧
+    keptReach (Analysis.mkCtx r.root r.facts).bodyReachable (modelPlan r.root r.facts) r.root = true ∧
+    planReaches (modelPlan r.root r.facts) r.root = true ∧
+    numBlock r.root = true ∧ FactsCoverCalls r.root r.facts ∧
+    Toy.summary (run { Toy.cfg with plan := modelPlan r.root r.facts } 30 r.root) = ([b!"2"], 0) := by
+  decide +kernel
+
+/-- An instance of `c06_accepted` for it, with the plan of the analysis model — through
+`analysis_plan_planReach`. -/
+example (fuel : Nat) :
+    let r := Resolve.resolve (parsed hoistedDeadDefText)
+    (run { Toy.cfg with plan := modelPlan r.root r.facts } fuel r.root : Outcome Int).isPanic = false :=
+  c06_accepted toyNumOk toy_numLitsParse _ rfl (Or.inl rfl) (parsed hoistedDeadDefText) (by decide +kernel)
+    (analysis_plan_planReach Toy.cfg _ _ (by decide +kernel) (by decide +kernel)) (by decide +kernel) fuel
+
+/-- A plan that removes a function reachable code calls fails `KeptReach` for the canonical `K`
+(`step` = 1 is called at top level; `leaf` = 2 would be fine). -/
+example : planReaches (some ⟨[], [1]⟩) (Resolve.resolve (parsed hoistedDeadDefText)).root = false ∧
+    planReaches (some ⟨[], [2]⟩) (Resolve.resolve (parsed hoistedDeadDefText)).root = true ∧
+    planReaches (some ⟨[], [2, 3]⟩) (Resolve.resolve (parsed hoistedDeadDefText)).root = true ∧
+    Toy.panicSite (run { Toy.cfg with plan := some ⟨[], [1]⟩ } 30 (Resolve.resolve (parsed hoistedDeadDefText)).root)
+      = some .fnById := by
+  decide +kernel
 
 /-- A number type for which `NumLitsParse _ isNumLexeme` holds (every operation trivial): the
 assumption of `c06_source` is satisfiable. -/
@@ -483,7 +669,7 @@ example : Accepted (parsed sampleText) ∧ (Lex.lex sampleText).2 = [] ∧
 example (fuel : Nat) :
     (@run Unit trivialNum Toy.cfg fuel (Resolve.resolve (parsed sampleText)).root).isPanic = false :=
   @c06_source Unit trivialNum (fun _ _ => rfl) Toy.cfg rfl (Or.inl rfl) sampleText (by decide +kernel)
-    (planKeepsCalls_none _ rfl _) fuel
+    (planReach_none _ rfl _) fuel
 
 /-- Acceptance matters: `comot` outside a loop is rejected; run nevertheless it leaves a function
 body and panics at `flowEscape`. -/
